@@ -78,6 +78,19 @@ class C10(Check):
                      "init": rng.choice([0.0, 1.0]), "seed": rng.randrange(1000)}
         cfg = {"samplers": samplers, "agent": agent, "sessions": sessions, "use_ctx": rng.random() < 0.6,
                "sched_seed": rng.randrange(1000), "param_seed": rng.randrange(1000)}
+        u = rng.random()
+        if u < 0.06:
+            sessions[rng.randrange(len(sessions))] = []                 # a session that ends before any batch
+        elif u < 0.16:
+            si = rng.randrange(len(sessions))                           # a batch fails after its sampler was designated
+            cfg["fault"] = {str(si): rng.randrange(len(sessions[si]))}
+            cfg["use_ctx"] = True
+        if rng.random() < 0.08:
+            # the best loss reaches exactly zero (nothing can improve on it afterwards)
+            si = rng.randrange(len(sessions))
+            if sessions[si]:
+                bi = rng.randrange(len(sessions[si]))
+                sessions[si][bi] = [0.0] + sessions[si][bi][1:]
         return {"engine": "rlsim", "config": cfg, "sched": gen_sched(rng, tier)}
 
     def judge(self, r: RLRun, res: Result, tag=""):
